@@ -25,7 +25,8 @@ from common import c_str as _c_str
 from golem.core.adapter import DirectAdapter, register_native
 from golem.core.dag.graph_verifier import GraphVerifier
 from golem.core.dag.verification_rules import DEFAULT_DAG_RULES, has_root, has_no_cycle, has_one_root
-from golem.core.optimisers.adaptive.operator_agent import RandomAgent
+from golem.core.optimisers.adaptive.context_agents import ContextAgentTypeEnum
+from golem.core.optimisers.adaptive.operator_agent import RandomAgent, MutationAgentTypeEnum
 from golem.core.optimisers.genetic.gp_params import GPAlgorithmParameters
 from golem.core.optimisers.genetic.operators.base_mutations import MutationTypesEnum, MutationStrengthEnum
 from golem.core.optimisers.genetic.operators import crossover as crossover_module
@@ -206,6 +207,27 @@ USER_CROSS = {'uc_' + n: _wrap_cross(n) for n in ('subtree', 'one_point', 'excha
 USER_CROSS['uc_swap'] = uc_swap
 
 
+def _importable(mod):
+    try:
+        __import__(mod)
+        return True
+    except Exception:
+        return False
+
+
+# every adaptive_mutation_type x context_agent_type the repository offers; what cannot work offline is skipped:
+# neural_bandit needs torch, feather_graph needs karateclub; none_encoding hands the graph itself to the bandit
+# as a context (it is meant for pre-encoded observations) and raises TypeError with contextual agents
+AGENT_TYPES = [a.name for a in MutationAgentTypeEnum if a.name != 'neural_bandit' or _importable('torch')]
+if not _importable('mabwiser'):
+    AGENT_TYPES = [a for a in AGENT_TYPES if a in ('default', 'random')]
+CONTEXT_TYPES = [c.name for c in ContextAgentTypeEnum
+                 if c.name != 'none_encoding' and (c.name != 'feather_graph' or _importable('karateclub'))]
+CONTEXT_FREE = ('default', 'random', 'bandit')      # agents that never look at the context encoder
+SKIPPED_AGENT_COMBOS = sorted(set(a.name for a in MutationAgentTypeEnum) - set(AGENT_TYPES)) + \
+    sorted(set(c.name for c in ContextAgentTypeEnum) - set(CONTEXT_TYPES))
+
+
 class RecordingAgent(RandomAgent):
     """operator agent of ours: draws like RandomAgent and remembers what it drew"""
 
@@ -320,6 +342,21 @@ def random_valid_spec(r, rules_verifier, max_n=10):
     return [[]], ['a']
 
 
+def same_size_trees(r, rules_verifier, n, count):
+    """`count` random trees on n nodes (n - 1 edges each), nodes listed in a random order"""
+    out = []
+    while len(out) < count:
+        perm = list(range(n))
+        r.shuffle(perm)
+        par = [[] for _ in range(n)]
+        for a in range(1, n):
+            par[perm[r.randrange(a)]].append(perm[a])
+        names = [r.choice(NODE_TYPES) for _ in range(n)]
+        if rules_verifier(build_graph(par, names)) or len(out) > 200:
+            out.append((par, names))
+    return out
+
+
 # ----------------------------------------------------------------------------------------
 # operators under test
 # ----------------------------------------------------------------------------------------
@@ -366,6 +403,25 @@ def params_of(n):
     return repr(rest) if rest else ''
 
 
+class _Spy:
+    def __init__(self):
+        self.drawn = []
+
+
+def spy_on_agent(agent, types):
+    """the repository's own agent (built by Mutation from the enum value), with choose_action of THIS instance
+    wrapped so that the drawn type is known"""
+    spy = _Spy()
+    orig = agent.choose_action
+
+    def choose_action(obs):
+        a = orig(obs)
+        spy.drawn.append(next((k for k, t in enumerate(types) if t is a or t == a), None))
+        return a
+    agent.choose_action = choose_action
+    return spy
+
+
 def make_env(cfg):
     """builds (operator, recorder, plain verifier, type table, agent) for a config dict"""
     domain = cfg.get('domain', False)
@@ -384,7 +440,10 @@ def make_env(cfg):
         types = [MutationTypesEnum[t] if t in MUT_TYPES else USER_MUT[t] for t in cfg['types']]
         table = [(t.__name__, t is MutationTypesEnum.none) for t in types]
         kw = {}
-        if cfg.get('agent'):
+        if cfg.get('agent_type'):
+            kw['adaptive_mutation_type'] = MutationAgentTypeEnum[cfg['agent_type']]
+            kw['context_agent_type'] = ContextAgentTypeEnum[cfg.get('context', 'nodes_num')]
+        elif cfg.get('agent'):
             agent = RecordingAgent(types)
             kw['adaptive_mutation_type'] = agent
         par = GPAlgorithmParameters(mutation_types=types, mutation_prob=cfg['prob'],
@@ -392,11 +451,17 @@ def make_env(cfg):
                                     variable_mutation_num=cfg.get('variable', True),
                                     mutation_strength=MutationStrengthEnum[cfg.get('strength', 'mean')], **kw)
         op = Mutation(par, req, gg)
+        if cfg.get('agent_type'):
+            agent = spy_on_agent(op.agent, types)
     else:
         types = [CrossoverTypesEnum[t] if t in CROSS_TYPES else USER_CROSS[t] for t in cfg['types']]
         table = [(str(t), t is CrossoverTypesEnum.none) for t in types]
+        kw = {}
+        if cfg.get('agent_type'):      # no effect on Crossover; passed to show it
+            kw['adaptive_mutation_type'] = MutationAgentTypeEnum[cfg['agent_type']]
+            kw['context_agent_type'] = ContextAgentTypeEnum[cfg.get('context', 'nodes_num')]
         par = GPAlgorithmParameters(crossover_types=types, crossover_prob=cfg['prob'],
-                                    max_num_of_operator_attempts=cfg['attempts'])
+                                    max_num_of_operator_attempts=cfg['attempts'], **kw)
         op = Crossover(par, req, gg)
     return op, rec, plain, table, agent, types
 
@@ -411,6 +476,8 @@ class World:
         self.nodes, self.graphs, self.inds, self.ops = [], [], [], []
         self.nid, self.gid, self.iid, self.oid = {}, {}, {}, {}
         self.uids, self.iuids, self.fits = {}, {}, {}
+        static = GraphRequirements().static_individual_metadata
+        self.fresh_meta = {repr([]), repr(sorted((str(k), repr(v)) for k, v in static.items()))}
 
     def node(self, n):
         k = id(n)
@@ -472,10 +539,13 @@ class World:
         return table.setdefault(key, len(table))
 
     def fit_token(self, i):
+        """token of the remaining fields of an Individual: fitness, native_generation, metadata; 0 = what a fresh
+        individual carries (null fitness, no generation, no metadata or the static metadata of the requirements)"""
         f = i.fitness
-        if not f.valid and i.native_generation is None:
+        meta = repr(sorted((str(k), repr(v)) for k, v in i.metadata.items()))
+        if not f.valid and i.native_generation is None and meta in self.fresh_meta:
             return 0
-        key = (repr(tuple(getattr(f, 'values', ()))), i.native_generation)
+        key = (repr(tuple(getattr(f, 'values', ()))), i.native_generation, meta)
         return 1 + self.num(self.fits, key)
 
     def read(self):
@@ -778,7 +848,8 @@ def run_case(spec):
             new_info[ir] = (ps, raw_content(o.graph))
     calls = rec.calls
     max_attempts = cfg['attempts']
-    facts = {'op': cfg['op'], 'rules': cfg['rules'], 'stream': spec.get('stream', '?'), 'raised': raised,
+    facts = {'agent': ('%s/%s' % (cfg['agent_type'], cfg.get('context'))) if cfg.get('agent_type') else ('recording' if cfg.get('agent') else 'default'),
+             'op': cfg['op'], 'rules': cfg['rules'], 'stream': spec.get('stream', '?'), 'raised': raised,
              'n_pop': len(pop), 'n_new': len(new_info), 'n_calls': len(calls)}
     vt = {}
     for c, v, _k in calls:
@@ -1009,6 +1080,30 @@ def gen_specs(ctx):
                 'pop': [r.randrange(1, 8) for _ in range(npop)], 'cfg': cfg, 'seed': sd(), 'stream': 'relatives',
                 'bare': False}
         specs.append(spec)
+    # --- agents stream: every adaptive_mutation_type x context_agent_type that works offline (the agent reads the
+    #     PARENT graph in choose_action, before the copy is made)
+    combos = [(a, c) for a in AGENT_TYPES for c in (CONTEXT_TYPES if a not in CONTEXT_FREE else CONTEXT_TYPES[:2])]
+    for k in range(ctx.budget(330, 3000)):
+        a, c = combos[k % len(combos)]
+        op = 'mutation' if k % 5 else 'crossover'
+        if op == 'mutation':
+            types = r.sample(MUT_TYPES[:9], r.choice([2, 3]))
+            npop = r.choice([1, 2, 3, 4])
+        else:
+            types = r.sample(CROSS_TYPES, r.choice([1, 2]))
+            npop = r.choice([2, 4])
+        cfg = base_cfg(r, op, types, rules=r.choice(['default', 'default', 'accept_all', 'custom']), prob=r.choice([1, 1, 0.5]))
+        cfg['agent_type'], cfg['context'] = a, c
+        ver = GraphVerifier(RULESETS[cfg['rules']])
+        if c == 'labeled_edges' and a not in CONTEXT_FREE:
+            # this encoder yields one number pair per edge and the contextual bandit insists on contexts of one
+            # length (>= 1): the unchanged tree raises ValueError from KMeans otherwise (reported, see docs/C02.md);
+            # the members are therefore trees with one common node count
+            graphs = same_size_trees(r, ver, r.choice([2, 3, 4, 5, 6, 7]), npop)
+        else:
+            graphs = [random_valid_spec(r, ver, max_n=8) for _ in range(npop)]
+        inds = [{'g': j, 'fit': r.choice([None, 1.0]), 'gen': r.choice([None, 2])} for j in range(npop)]
+        specs.append(plain_spec(graphs, list(range(npop)), cfg, sd(), 'agents', inds=inds))
     # --- user-supplied functions stream: mutation callables (native and domain-level), crossover callables
     for _ in range(ctx.budget(300, 2500)):
         op = r.choice(['mutation', 'mutation', 'crossover'])
@@ -1065,7 +1160,7 @@ def evaluate(ctx, results, group_prefix=''):
                       new_outputs=min(f['n_new'], 4), applied=f['n_applied'] > 0, all_attempts_failed=f['n_failed'] > 0,
                       dropped=f['dropped'] > 0, relatives_share_uids=f['relatives_share_uids'],
                       types=f['types'] if f['stream'].startswith('exhaustive') else 'n/a',
-                      raised=bool(f['raised']))
+                      raised=bool(f['raised']), agent=f.get('agent', 'n/a'))
             case = {'spec': spec, 'observed': x['detail'], 'raised': f['raised']}
             if not ho:
                 what, fkey = explain(x)
@@ -1112,7 +1207,9 @@ def run(ctx):
                 'nodes x 7 crossover types), random (DAGs <= 10 nodes, populations 0..6, mixed types, probabilities 0/0.5/1, '
                 'max_depth, arity, attempts, 6 rule sets, shared graph objects, repeated individuals), relatives (parents '
                 'derived from one ancestor by earlier operator calls / deepcopy: shared node uids), user functions (native and '
-                'domain-level mutation callables with a DirectAdapter, crossover callables); distinct = distinct (population, '
+                'domain-level mutation callables with a DirectAdapter, crossover callables), agents (every adaptive_mutation_type x '
+                'context_agent_type importable offline); the snapshot keeps the ORDER of graph.nodes and of every nodes_from, uids, '
+                'content, and every field of the individuals; distinct = distinct (population, '
                 'configuration, seed); non-trivial = the operator was applied to at least one member / pair')
     ctx.trusted_extra = [
         'copy.deepcopy is modelled (allocation of an isomorphic fresh sub-heap, uids kept), not verified',
@@ -1120,7 +1217,9 @@ def run(ctx):
         '(they touch only the fresh copies they are given and what they allocate); for the built-in ones this is observed '
         'on every case of this check (snapshots), not proved here',
         'the verifier is modelled as a pure function of the graph it is given (rules that mutate graphs are out of scope)',
-        'operator agents other than the random / recording one (bandits) only choose the type; they are not modelled',
+        'operator agents (random, bandit, contextual bandit x context encoders) are modelled as the draw of a type; that they '
+        'leave the parent graph they observe untouched is checked by the snapshots (agents stream), not proved; skipped '
+        'offline: ' + (', '.join(SKIPPED_AGENT_COMBOS) or 'nothing'),
     ]
     specs = gen_specs(ctx)
     picked = 0
